@@ -1,4 +1,5 @@
 import PyxisVerif.Props.C14
+import PyxisVerif.Props.CaseLift
 #print axioms PyxisVerif.C14.files_per_module
 #print axioms PyxisVerif.C14.file_name
 #print axioms PyxisVerif.C14.file_content
@@ -8,3 +9,4 @@ import PyxisVerif.Props.C14
 #print axioms PyxisVerif.C14.duplicate_definition_rejected
 #print axioms PyxisVerif.C14.vftable_clash_rejected
 #print axioms PyxisVerif.C14.vftable_item_path
+#print axioms PyxisVerif.CaseLift.case_files_items
